@@ -153,7 +153,7 @@ def finish(rep, runs):
     if n:
         rep.notes.append("MODEL-DRIFT on %d runs (Layer-B prediction differs from the implementation; not a violation): %s"
                          % (n, json.dumps(ex)))
-    rep.extra["model_drift_runs"] = n
+    rep.extra["model_drift"] = "none" if n == 0 else "%d runs differ from the Layer-B prediction" % n
     return rep.finish()
 
 
